@@ -1189,7 +1189,8 @@ func c08EnvNames(c *Ctx, pkgs []*packages.Package, repo string) []string {
 // letter per statement that matters: V (an `if` whose body returns a non-nil error: validation),
 // E (os.LookupEnv / os.Getenv), G (an `if` that returns success: the early-out gated by E), L (a call
 // of a logger function value).  The fixed handler is "VVEGL": both validations come before the
-// environment read; the pinned tree was "EGVL" with no level validation.
+// environment read; the pinned tree was "EGVL" with no level validation.  X (round 3): a statement after the environment
+// read that calls anything but the logger and the builders of its arguments, or writes to something that is not a local.
 func c08StatusUpdateShape(c *Ctx) (string, error) {
 	f, err := c.Parse("x/paloma/keeper/msg_server.go")
 	if err != nil {
@@ -1200,8 +1201,45 @@ func c08StatusUpdateShape(c *Ctx) (string, error) {
 		return "", fmt.Errorf("msgServer.AddStatusUpdate not found")
 	}
 	var sb strings.Builder
+	// Round 3: after the environment read (E) only logging may follow.  Every call in a statement after it must be one
+	// of these (building the logger's arguments and calling it); anything else — an event, a store write, another
+	// keeper — adds an X to the shape.
+	allowed := map[string]bool{"sdk.ValAddress": true, "creator.Bytes": true, "msg.GetStatus": true, "msg.GetArgs": true,
+		"make": true, "len": true, "append": true, "fmt.Sprintf": true, "v.GetKey": true, "v.GetValue": true,
+		"liblog.FromSDKLogger": true, "k.Logger": true, "logFn": true, "os.LookupEnv": true, "os.Getenv": true}
+	afterE := false
 	for _, st := range fd.Body.List {
 		src := c.Src(st)
+		if afterE {
+			bad := ""
+			ast.Inspect(st, func(n ast.Node) bool {
+				switch y := n.(type) {
+				case *ast.CallExpr:
+					if f := strings.Join(strings.Fields(c.Src(y.Fun)), ""); !allowed[f] && bad == "" {
+						bad = f
+					}
+				case *ast.GoStmt, *ast.DeferStmt, *ast.SendStmt, *ast.FuncLit:
+					if bad == "" {
+						bad = "statement"
+					}
+				case *ast.AssignStmt:
+					// assignments to locals only
+					for _, l := range y.Lhs {
+						if _, ok := l.(*ast.Ident); !ok && bad == "" {
+							bad = "write:" + c.Src(l)
+						}
+					}
+				}
+				return true
+			})
+			if bad != "" {
+				sb.WriteByte('X')
+				c.Info("status_update_after_flag", bad)
+			}
+		}
+		if strings.Contains(src, "os.LookupEnv") || strings.Contains(src, "os.Getenv") {
+			afterE = true
+		}
 		switch x := st.(type) {
 		case *ast.AssignStmt, *ast.DeclStmt:
 			if strings.Contains(src, "os.LookupEnv") || strings.Contains(src, "os.Getenv") {
